@@ -57,6 +57,9 @@ func (f *File) Render() string {
 				}
 				sb.WriteString(")")
 			}
+			if fn.Ann != "" {
+				sb.WriteString(" (" + fn.Ann + ")")
+			}
 			sb.WriteString("\n")
 		}
 		sb.WriteString("}\n\n")
@@ -187,11 +190,13 @@ func flagFor(name string, salt int, b bool) string {
 
 func (f *File) fieldText(fl *Field) string {
 	var sb strings.Builder
-	fmt.Fprintf(&sb, "%d: ", fl.ID)
-	switch fl.Req {
-	case Required:
+	if !fl.NoID {
+		fmt.Fprintf(&sb, "%d: ", fl.ID)
+	}
+	switch {
+	case fl.Req == Required:
 		sb.WriteString("required ")
-	case Optional:
+	case fl.Req == Optional && !fl.ReqImplicit:
 		sb.WriteString("optional ")
 	}
 	sb.WriteString(f.TypeText(fl.Type))
